@@ -231,7 +231,7 @@ def gen_call(rng, grp):
         g = r.choice(['m', 'f', 'm', 'f', 'M', 'F'])
         x = r.random()
         ev = r.choice(WMA_EVENTS) if x < 0.62 else r.choice(WMA_INTERP) if x < 0.95 else r.choice(['XYZ', '', '4X100'])
-        if x < 0.08 and odd_events():
+        if x < 0.16 and odd_events():
             ev = r.choice(odd_events())
         age = r.choice([r.randint(30, 100), r.randint(5, 110), r.choice([35, 40, 50, 62.5, 0, 101])])
         k = r.random()
@@ -289,6 +289,8 @@ def near_call(rng, call):
                 ev = a[2]
                 pool = AAG_EVENTS if 'athlon' in f else (WMA_INTERP if ev in WMA_INTERP or ev not in WMA_EVENTS else WMA_EVENTS)
                 a[2] = _other(r, pool, ev)
+                if 'athlon' not in f and odd_events() and r.random() < 0.2:
+                    a[2] = r.choice(odd_events())
             elif x < 0.8:
                 a[1] = r.choice([r.randint(30, 100), a[1] + r.choice([-7, -1, 1, 5]) if isinstance(a[1], int) else 50])
             else:
@@ -822,7 +824,9 @@ def _draw_schedule(rng, nthreads, traces, wlines, focus=None):
             # near the lines that differ from the baseline commit
             cand = [j for j, k2 in enumerate(tr) if k2 in focus]
             if cand and rng.random() < 0.8:
-                key = tr[rng.choice(sorted(set(tr[j] for j in cand)) and cand)]
+                # line-uniform over the distinct focus lines (a once-executed publishing line weighs as much
+                # as the 70-times-executed body of the loop before it), then over that line's occurrences
+                key = rng.choice(sorted(set(tr[j] for j in cand)))
                 occs = [j for j in cand if tr[j] == key]
                 i = rng.choice(occs)
                 occ = sum(1 for k2 in tr[:i + 1] if k2 == key)
